@@ -82,6 +82,20 @@ func cmdWorker(args []string) int {
 	n, _ := strconv.Atoi(args[4])
 	out := args[5]
 	race := len(args) > 6 && args[6] == "race"
+	// memory guard: a parser that spins while allocating would take the machine down long before a watchdog on calls fires;
+	// the worker ends itself with a recognisable message when its heap passes the limit (the runner reports a crash class)
+	go func() {
+		limit := uint64(6 << 30)
+		var ms runtime.MemStats
+		for {
+			time.Sleep(100 * time.Millisecond)
+			runtime.ReadMemStats(&ms)
+			if ms.HeapAlloc > limit {
+				fmt.Fprintf(os.Stderr, "panic: vmon memory guard: heap of %d MiB in worker %s shard %d (a call allocates without bound)\n", ms.HeapAlloc>>20, p.ID, shard)
+				os.Exit(2)
+			}
+		}
+	}()
 	c := mon.NewCtx(p.ID, args[1], sd, shard, n)
 	if p.Journal {
 		f, err := os.Create(out + ".journal")
